@@ -6,6 +6,17 @@ VERIF = Path(__file__).resolve().parent.parent
 ALL = [f"C{i:02d}" for i in range(1, 20)]
 
 CLAIMED = {
+    "C17": dict(
+        text="api/SimExport.tla states what exporting a Sim must yield: top = the testbench, present exactly once in the package; analyses, controls "
+             "and options complete and in their original order; names, expressions, paths, sweep kinds, nested analyses kept; every number the "
+             "double nearest its exact decimal value (BigNum, neighbours supplied); analysis names pairwise distinct; a testbench without "
+             "exactly one scalar port rejected. Seeded random Sims over all 15 attribute kinds, nesting to depth 2-3, all sweep kinds and "
+             "SaveTarget forms, 18 Scalar spellings, three construction styles, alone and in lists sharing or not sharing a testbench are "
+             "exported and decided by TLC (Trace_Sim).",
+        note="Trusted: builder, SimInput projection, 'exact value of a spelling' (Decimal of the text / of repr(float)), Decimal(float), math.nextafter "
+             "in harness/props/c17.py; TLC. Sims are sampled (500 groups quick, 5000 thorough), not exhaustive; SaveMode.SELECTED and bool options "
+             "are not generated (vlsir has no counterpart).",
+        ref="6 C17", technique="TLA+ functional spec (SimExport over BigNum) + TLC batch validation of recorded SimInputs"),
     "C16": dict(
         text="Hierarchies (depth 3, shared / distinct sub-modules, internal nets at every level, ports passed through, scalar and bus signals, "
              "primitive and external leaves below and at the top, top-level signals named like flatten's ':'-joined internal-net names) are "
